@@ -195,3 +195,126 @@ func (w *WaitGroup) Wait() {
 	}
 	w.real.Wait()
 }
+
+// ---- primitives the pinned library does not use today; present so that a changed library
+// that starts using them still builds and runs under the controlled scheduler ----
+
+// Pool: deterministic LIFO free list (the most adversarial legal behaviour of sync.Pool for
+// code that relies on addresses not being reused: an object put back is the next one handed out).
+type Pool struct {
+	New   func() any
+	mu    sync.Mutex
+	items []any
+}
+
+func (p *Pool) Get() any {
+	p.mu.Lock()
+	if n := len(p.items); n > 0 {
+		x := p.items[n-1]
+		p.items = p.items[:n-1]
+		p.mu.Unlock()
+		return x
+	}
+	p.mu.Unlock()
+	if p.New != nil {
+		return p.New()
+	}
+	return nil
+}
+
+func (p *Pool) Put(x any) {
+	if x == nil {
+		return
+	}
+	p.mu.Lock()
+	p.items = append(p.items, x)
+	p.mu.Unlock()
+}
+
+// Cond: Wait releases L, parks until a Signal/Broadcast issued after it parked selects it, re-acquires L.
+type Cond struct {
+	L       Locker
+	mu      sync.Mutex
+	waiters []*condWaiter
+}
+
+type condWaiter struct {
+	w  int32
+	ch chan struct{}
+}
+
+//go:norace
+func (c *condWaiter) word() *int32 { return &c.w }
+
+//go:norace
+func (c *condWaiter) set(v int32) { c.w = v }
+
+func NewCond(l Locker) *Cond { return &Cond{L: l} }
+
+func (c *Cond) Wait() {
+	cw := &condWaiter{ch: make(chan struct{})}
+	cw.set(1)
+	c.mu.Lock()
+	c.waiters = append(c.waiters, cw)
+	c.mu.Unlock()
+	c.L.Unlock()
+	vsched.BlockWG(cw.word())
+	if !vsched.Aborting() {
+		<-cw.ch
+	}
+	c.L.Lock()
+}
+
+func (c *Cond) wake(n int) {
+	vsched.PointOp(vsched.OpUnlock)
+	if vsched.Aborting() {
+		return
+	}
+	c.mu.Lock()
+	for n != 0 && len(c.waiters) > 0 {
+		cw := c.waiters[0]
+		c.waiters = c.waiters[1:]
+		cw.set(0)
+		close(cw.ch)
+		n--
+	}
+	c.mu.Unlock()
+	vsched.PointOp(vsched.OpUnlocked)
+}
+
+func (c *Cond) Signal()    { c.wake(1) }
+func (c *Cond) Broadcast() { c.wake(-1) }
+
+// Map: the real sync.Map with a scheduling point before every operation.
+type Map struct{ m sync.Map }
+
+func mpt() { vsched.PointOp(vsched.OpAtomic) }
+
+func (m *Map) Load(k any) (any, bool)           { mpt(); return m.m.Load(k) }
+func (m *Map) Store(k, v any)                   { mpt(); m.m.Store(k, v) }
+func (m *Map) LoadOrStore(k, v any) (any, bool) { mpt(); return m.m.LoadOrStore(k, v) }
+func (m *Map) LoadAndDelete(k any) (any, bool)  { mpt(); return m.m.LoadAndDelete(k) }
+func (m *Map) Delete(k any)                     { mpt(); m.m.Delete(k) }
+func (m *Map) Swap(k, v any) (any, bool)        { mpt(); return m.m.Swap(k, v) }
+func (m *Map) CompareAndSwap(k, o, n any) bool  { mpt(); return m.m.CompareAndSwap(k, o, n) }
+func (m *Map) CompareAndDelete(k, o any) bool   { mpt(); return m.m.CompareAndDelete(k, o) }
+func (m *Map) Range(f func(k, v any) bool)      { mpt(); m.m.Range(f) }
+
+// OnceFunc / OnceValue / OnceValues in terms of Once.
+func OnceFunc(f func()) func() {
+	var o Once
+	return func() { o.Do(f) }
+}
+
+func OnceValue[T any](f func() T) func() T {
+	var o Once
+	var v T
+	return func() T { o.Do(func() { v = f() }); return v }
+}
+
+func OnceValues[T1, T2 any](f func() (T1, T2)) func() (T1, T2) {
+	var o Once
+	var v1 T1
+	var v2 T2
+	return func() (T1, T2) { o.Do(func() { v1, v2 = f() }); return v1, v2 }
+}
